@@ -109,12 +109,12 @@ func (r *runner) valBytes(v int, key string, nblk int) []byte {
 	if n < 1 {
 		n = 1
 	}
-	b := genBytes(v, n)
-	// make the value id recoverable and distinct per (v, key length)
+	b := genBytes(v*8+nblk, n)
+	// the model's value id names the BYTES: id = v*8 + nblk (the same v with another size is another value)
 	if _, ok := r.vals[string(b)]; !ok {
 		r.gen = append(r.gen, genSpec{v, key, nblk})
 	}
-	r.vals[string(b)] = v
+	r.vals[string(b)] = v*8 + nblk
 	return b
 }
 
@@ -404,7 +404,15 @@ func (r *runner) step(i int, o *sop) (e ev, stop bool) {
 			copy(p.CArray.Body, body)
 			cmem.DBRL.SetData.AddSizeAndCount(p.CArray.Cap)
 			rec := &Record{key, p}
-			e["a"], e["rev"], e["val"], e["flag"] = "Set", o.Rev, o.V, o.Flag
+			vid := o.V
+			if o.V < numBase {
+				nb := o.NBlk
+				if nb <= 0 {
+					nb = 1
+				}
+				vid = o.V*8 + nb
+			}
+			e["a"], e["rev"], e["val"], e["flag"] = "Set", o.Rev, vid, o.Flag
 			e["vh"] = Getvhash(body)
 			_, sz := rec.Sizes()
 			e["nblk"] = int(sz) / 256 // uncompressed; corrected below from the stored record
@@ -422,6 +430,7 @@ func (r *runner) step(i int, o *sop) (e ev, stop bool) {
 			e["nblk"] = int(p.RecSize) / 256
 		}
 		e["ver"] = p.Ver // the version the write got (0/-1 = nothing was written)
+		e["wrote"] = p.RecSize > 0 // a record was appended for this write
 	case "get":
 		vs.setProc("c1")
 		g := r.get(o.K)
